@@ -2155,6 +2155,10 @@ class KmipEngine(object):
                     "The cryptographic length must correspond to a valid "
                     "number of bytes; it must be a multiple of 8."
                 )
+            if derivation_length <= 0:
+                raise exceptions.InvalidField(
+                    "The cryptographic length must be greater than zero."
+                )
         else:
             raise exceptions.InvalidField(
                 "The cryptographic length must be provided in the template "
